@@ -114,7 +114,7 @@ impl Prop for P19 {
             .map(|_| {
                 let r = rng.below(20) as u64;
                 if r < pfatal {
-                    *rng.pick(&[255i64, 1009, 1015, 1002])
+                    *rng.pick(&[255i64, 1009, 1015, 1002, 1013, 1001, 1010])
                 } else if r < 10 {
                     0
                 } else {
